@@ -13,7 +13,14 @@ import numpy as np
 
 from ..core import Machine, rs
 
-from menpo.transform import Rotation
+from menpo.image import Image
+from menpo.shape import PointCloud, TriMesh
+from menpo.transform import (Affine, NonUniformScale, Rotation, Scale, Translation, UniformScale,
+                             image_coords_to_tcoords, rotate_ccw_about_centre, scale_about_centre,
+                             shear_about_centre, tcoords_to_image_coords, transform_about_centre)
+from .. import walker
+
+SHAPES = [(5, 7), (2, 2), (10, 3), (64, 48), (7, 5)]
 
 
 def rodrigues(axis, angle):
@@ -48,35 +55,43 @@ class RotationRng(Machine):
     LEVEL = {"quick": "exploration", "thorough": "exploration"}
     RULE = ("seeded histories of rotation constructions (ccw 2D / 3D about x,y,z, quaternion, "
             "general axis-angle), axis/angle queries, foreign draws from and re-seeds of the "
-            "global NumPy RNG; a history is non-trivial if at least one clause was evaluated; "
-            "distinct = distinct operation-kind sequences")
+            "global NumPy RNG, and - in history form - the other convenience constructors (texture/image "
+            "coordinate transforms for a few recurring image shapes, scale/rotate/shear/transform about the "
+            "centre of point clouds, meshes and images, the Scale factory) whose returned transforms or passed "
+            "arrays the caller then edits in place; a history is non-trivial if at least one clause was "
+            "evaluated; distinct = distinct operation-kind sequences")
     STATE_MEASURE = "(dimension, axis kind, quadrant of the angle, |turns|, RNG draws so far capped at 6)"
     REAL = ["menpo.transform.Rotation constructors, axis_and_angle_of_rotation, as_vector/from_vector",
             "numpy global RNG (seeded and logged by the simulator)"]
     STUB = ["np.random.rand is wrapped (same values, every draw recorded)"]
-    ASSUMPTIONS = ["only the first sentence of C20 is covered (about-centre helpers, Scale factory and "
-                   "texture-coordinate transforms are pure functions with no seam)",
+    ASSUMPTIONS = ["the second and third sentence of C20 (about-centre helpers, Scale factory, texture-coordinate "
+                   "transforms) are pure functions; they are exercised here only in history form (repeated calls for "
+                   "recurring arguments with in-place edits of earlier results in between), not as an input sweep",
+                   "transform_about_centre is called with linear maps (a transform with its own translation moves the centre by it)",
                    "angles stay >= 1 degree away from identity and half-turns for the 3D axis-angle clause",
                    "no adversarial RNG stub: a draw parallel to the axis is not forced"]
     REQUIRED_PROBES = ("ccw2d", "ccw3d_x", "ccw3d_y", "ccw3d_z", "quat", "general3d",
                        "axis_angle_3d", "axis_angle_2d", "axis_angle_after_foreign_draw",
                        "axis_angle_repeated", "axis_angle_after_reseed", "rng_draw_logged",
-                       "negative_angle", "beyond_one_turn", "radians")
+                       "negative_angle", "beyond_one_turn", "radians", "tcoords", "returned_transform_mutated",
+                       "about_centre_scale", "about_centre_rotate", "about_centre_shear", "about_centre_transform",
+                       "scale_factory", "scale_factory_zero_refused", "passed_array_mutated")
 
     @classmethod
     def swarm(cls, rng, tier):
         return {"steps": rng.randint(3, 14 if tier == "quick" else 40),
                 "rng_seed": rng.getrandbits(32),
-                "w": [rng.choice([0, 1, 1, 2, 3]) for _ in range(7)]}
+                "w": [rng.choice([0, 1, 1, 2, 3]) for _ in range(10)]}
 
-    KINDS = ["ccw2d", "ccw3d", "quat", "general3d", "axis_angle", "burn", "reseed"]
+    KINDS = ["ccw2d", "ccw3d", "quat", "general3d", "axis_angle", "burn", "reseed",
+             "tcoords", "about_centre", "scale_factory"]
 
     @classmethod
     def draw(cls, rng, cfg):
         w = list(cfg["w"])
         w[4] += 2  # queries are the point
         if not any(w):
-            w = [1] * 7
+            w = [1] * 10
         kind = rng.choices(cls.KINDS, weights=w)[0]
         op = {"op": kind}
         if kind in ("ccw2d", "ccw3d"):
@@ -90,8 +105,16 @@ class RotationRng(Machine):
             op.update(i=rng.randrange(64), times=rng.randrange(1, 4))
         elif kind == "burn":
             op.update(n=rng.randrange(1, 9))
-        else:
+        elif kind == "reseed":
             op.update(s=rng.getrandbits(32))
+        elif kind == "tcoords":
+            op.update(shape=rng.randrange(5), form=rng.randrange(3), mutate=rng.randrange(4))
+        elif kind == "about_centre":
+            op.update(which=rng.randrange(4), obj=rng.randrange(3), data=rng.getrandbits(32), a=rng.randrange(12),
+                      frac=rng.randrange(1000), neg=rng.randrange(2), deg=rng.randrange(2), mutate=rng.randrange(3),
+                      d3=rng.randrange(3))
+        else:
+            op.update(data=rng.getrandbits(32), how=rng.randrange(5), d=rng.randrange(2, 4), mutate=rng.randrange(2))
         return op
 
     def setup(self):
@@ -205,12 +228,160 @@ class RotationRng(Machine):
                 self.foreign_since = self.reseed_since = False
                 ctx.out("aa", meta, None if axis is None else np.asarray(axis, float), float(angle) if angle is not None else None)
             ctx.state(meta, min(self.draws, 6))
+        elif k == "tcoords":
+            self._tcoords(op)
+        elif k == "about_centre":
+            self._about_centre(op)
+        elif k == "scale_factory":
+            self._scale_factory(op)
         elif k == "burn":
             np.random.random_sample(op["n"])
             self.foreign_since = True
         elif k == "reseed":
             np.random.seed(op["s"] % (2 ** 32))
             self.reseed_since = True
+
+    # ---- the other convenience constructors, in history form: the caller may edit in place what a
+    # constructor returned (or an array it passed); later constructions must be unaffected
+    def _tcoords(self, op):
+        ctx = self.ctx
+        shape = SHAPES[op["shape"] % len(SHAPES)]
+        arg = [shape, list(shape), np.array(shape)][op["form"] % 3]
+        h, w = shape
+        t = tcoords_to_image_coords(arg)
+        ti = image_coords_to_tcoords(arg)
+        ctx.probe("tcoords")
+        corners = np.array([[0.0, 0.0], [1.0, 0.0], [0.0, 1.0], [1.0, 1.0], [0.5, 0.25]])
+        # texture coordinate (s, t): s to the right, t upwards -> pixel (row, col), vertical axis flipped
+        exp = np.stack([(1.0 - corners[:, 1]) * (h - 1), corners[:, 0] * (w - 1)], 1)
+        got = np.asarray(t.apply(corners.copy()))
+        err = float(np.abs(got - exp).max())
+        ctx.err("tcoords", err)
+        ctx.require(err < 1e-9, "tcoords", "corners_not_mapped_to_corner_pixels",
+                    lambda: "image shape %r: unit-square corners map to %r, expected %r" % (shape, got.tolist(), exp.tolist()))
+        back = np.asarray(ti.apply(got.copy()))
+        ctx.require(float(np.abs(back - corners).max()) < 1e-9, "tcoords", "not_mutual_inverses",
+                    lambda: "image_coords_to_tcoords(tcoords_to_image_coords(x)) = %r for x = %r" % (back.tolist(), corners.tolist()))
+        fwd = np.asarray(t.apply(np.asarray(ti.apply(exp.copy()))))
+        ctx.require(float(np.abs(fwd - exp).max()) < 1e-9 * max(h, w), "tcoords", "not_mutual_inverses_other_order")
+        m = op["mutate"] % 4
+        if m == 1:      # the caller keeps composing onto what it was given
+            t.compose_before_inplace(UniformScale(2.0, 2))
+            ctx.probe("returned_transform_mutated")
+        elif m == 2:
+            ti.compose_after_inplace(Translation(np.array([3.0, -1.0])))
+            ctx.probe("returned_transform_mutated")
+        elif m == 3 and isinstance(arg, np.ndarray):
+            arg += 5   # the caller reuses its shape array
+        ctx.state("tcoords", shape, m)
+
+    def _about_centre(self, op):
+        ctx = self.ctx
+        g = rs(op["data"])
+        d = 2 if (op["which"] % 4 in (1, 2) or op["d3"]) else 3
+        pts = g.uniform(-20, 40, size=(5, d))
+        kind = op["obj"] % 3
+        if kind == 0:
+            obj = PointCloud(pts.copy())
+        elif kind == 1 and d == 2:
+            obj = TriMesh(pts.copy())
+        else:
+            obj = Image(g.rand(1, *[int(v) for v in g.randint(3, 9, size=d)])) if d == 2 else PointCloud(pts.copy())
+        before = walker.digest(obj, skip=("__empty__",))
+        c = np.asarray(obj.centre(), dtype=float)
+        which = op["which"] % 4
+        deg = angle_from({"a": op["a"], "frac": op["frac"], "half": 0, "turns": 2, "neg": op["neg"]})
+        in_deg = op["deg"] % 2 == 0
+        theta = deg if in_deg else math.radians(deg)
+        if which == 0:
+            sc = float(np.exp(g.uniform(-1, 1)))
+            t = scale_about_centre(obj, sc)
+            L = sc * np.eye(d)
+            name = "scale"
+        elif which == 1:
+            t = rotate_ccw_about_centre(obj, theta, degrees=in_deg)
+            L = rot2(math.radians(deg))
+            name = "rotate"
+        elif which == 2:
+            phi, psi = deg / 6.0, -deg / 9.0
+            a1, a2 = (phi, psi) if in_deg else (math.radians(phi), math.radians(psi))
+            t = shear_about_centre(obj, a1, a2, degrees=in_deg)
+            plain = Affine.init_from_2d_shear(a1, a2, degrees=in_deg)
+            L = np.array(plain.h_matrix, dtype=float)[:2, :2]
+            name = "shear"
+        else:
+            # a linear map (no translation of its own), so that "keeps the centre fixed" applies as stated
+            A = Affine(np.vstack([np.hstack([g.uniform(-1, 1, size=(d, d)) + 2 * np.eye(d), np.zeros((d, 1))]),
+                                  np.eye(d + 1)[d:]]))
+            t = transform_about_centre(obj, A)
+            Ah = np.array(A.h_matrix, dtype=float)
+            L, name = Ah[:d, :d], "transform"
+            # a general transform with its own translation moves the centre by that translation
+            off = Ah[:d, d]
+        ctx.probe("about_centre_" + name)
+        v = g.uniform(-5, 5, size=(4, d))
+        got_c = np.asarray(t.apply(c[None, :].copy()))[0]
+        exp_c = c if which != 3 else c + off
+        err = float(np.abs(got_c - exp_c).max())
+        ctx.err("about_centre", err)
+        ctx.require(err < 1e-8 * (1 + np.abs(c).max()), "about_centre", "centre_not_fixed_" + name,
+                    lambda: "%s about the centre %r moves the centre to %r" % (name, c.tolist(), got_c.tolist()))
+        got = np.asarray(t.apply(c + v))
+        exp = exp_c + v @ L.T
+        err = float(np.abs(got - exp).max())
+        ctx.require(err < 1e-8 * (1 + np.abs(exp).max()), "about_centre", "offsets_not_transformed_plainly_" + name,
+                    lambda: "err %.3g" % err)
+        ctx.require(walker.digest(obj, skip=("__empty__",)) == before, "about_centre", "object_modified_" + name)
+        if op["mutate"] % 3 == 1 and hasattr(t, "compose_before_inplace"):
+            try:
+                t.compose_before_inplace(Translation(np.ones(d)))
+                ctx.probe("returned_transform_mutated")
+            except Exception:
+                pass
+        ctx.state("about", name, kind, d)
+
+    def _scale_factory(self, op):
+        ctx = self.ctx
+        g = rs(op["data"])
+        d = op["d"]
+        how = op["how"] % 5
+        if how == 0:       # clearly equal factors
+            f = np.full(d, float(np.exp(g.uniform(-1, 1))))
+            t = Scale(f)
+            ctx.require(isinstance(t, UniformScale), "scale_factory", "equal_factors_not_uniform", lambda: type(t).__name__)
+        elif how == 1:     # clearly different factors
+            f = np.exp(g.uniform(-1, 1, size=d))
+            f[0] = f[1] * 1.7
+            t = Scale(f)
+            ctx.require(isinstance(t, NonUniformScale) and not isinstance(t, UniformScale), "scale_factory", "different_factors_not_non_uniform",
+                        lambda: type(t).__name__)
+        elif how == 2:     # scalar + n_dims
+            sc = float(np.exp(g.uniform(-1, 1)))
+            f = np.full(d, sc)
+            t = Scale(sc, n_dims=d)
+            ctx.require(isinstance(t, UniformScale), "scale_factory", "scalar_not_uniform", lambda: type(t).__name__)
+        else:              # a zero among the factors must be refused
+            f = np.exp(g.uniform(-1, 1, size=d))
+            f[int(g.randint(d))] = 0.0
+            try:
+                Scale(list(f) if how == 3 else f)
+                ctx.fail("scale_factory", "zero_factor_accepted", "Scale(%r) did not raise" % (f.tolist(),))
+            except ValueError:
+                ctx.probe("scale_factory_zero_refused")
+                ctx.ok()
+            return
+        ctx.probe("scale_factory")
+        x = g.uniform(-3, 3, size=(4, d))
+        f0 = f.copy()
+        got = np.asarray(t.apply(x.copy()))
+        ctx.require(float(np.abs(got - x * f0).max()) < 1e-12 * 30, "scale_factory", "wrong_factors", lambda: repr(got.tolist()))
+        if op["mutate"] % 2 and how in (0, 1):
+            f *= 3.0       # the caller reuses the array it passed
+            got2 = np.asarray(t.apply(x.copy()))
+            ctx.require(float(np.abs(got2 - x * f0).max()) < 1e-12 * 30, "scale_factory", "tracks_callers_array",
+                        "editing the array passed to Scale() changed the transform")
+            ctx.probe("passed_array_mutated")
+        ctx.state("scale", how, d)
 
     def _probes(self, deg, in_deg):
         if deg < 0:
